@@ -6,7 +6,7 @@ import time
 from lib import scen as S, runner
 from lib.common import build_props, WORK
 
-GROUPS = ['GenAsync', 'GenStruct']
+GROUPS = ['GenAsync', 'GenStruct', 'GenObserve']
 LIMIT = 20
 CAL = {}
 
@@ -34,6 +34,8 @@ def gen(rng, k, tier):
         params['worker_lifespan'] = rng.choice([1, 2, 3])
     if rng.random() < 0.2:
         params['progress_bar'] = True
+    if rng.random() < 0.3:
+        params['max_tasks_active'] = rng.choice([1, 2, 3, 6])          # also below the chunk size
     kind = rng.choice(['map', 'map_unordered', 'imap', 'imap_unordered'])
     call = {'kind': kind, 'n': n, 'input': rng.choice(['list', 'gen']), 'elem': 'scalar', 'params': params, 'base': 1000,
             'init': rng.random() < 0.4, 'exit': rng.random() < 0.4}
@@ -60,6 +62,11 @@ def gen(rng, k, tier):
     elif point == 'task':
         behaviour['task'] = [{'at': 1000 + rng.choice([0, n - 1, rng.randrange(n)]), 'do': 'die'}]
         must_raise = True
+        if rng.random() < 0.35:
+            # a bound below the chunk size: main sits in the extra wait before it draws the next chunk
+            params.pop('n_splits', None)
+            params['chunk_size'] = rng.choice([3, 4, 5])
+            params['max_tasks_active'] = rng.choice([1, 2])
     elif point == 'between':
         plan = [{'method': 'get_task', 'actor': 'worker', 'worker_id': victim, 'nth': rng.choice([2, 3]), 'per_process': True, 'action': 'qkill'}]
     elif point == 'exit':
